@@ -49,7 +49,7 @@ SpatialSum(A) == LET nc == NComp(A) IN [c \in 1..nc |-> SumSeq([m \in 1..NPix(A)
 Contribution(c, x, si, tgt, Wst, bank, o) ==
   LET s  == x.types[si]
       fb == BankOf(bank, FType(s, tgt))
-      Frow == [i \in 1..Len(x.blks[si]) |-> LinComb(Wst[o][i], fb)]
+      Frow == Eager([i \in 1..Len(x.blks[si]) |-> LinComb(Wst[o][i], fb)])   \* forced: read once per tap
   IN ConvContractOne(c, x.blks[si], Frow)
 
 SumImages(imgs) == [imgs[1] EXCEPT !.val = Eager([n \in 1..Len(imgs[1].val) |-> SumSeq([j \in 1..Len(imgs) |-> imgs[j].val[n]])])]
@@ -57,7 +57,7 @@ SumImages(imgs) == [imgs[1] EXCEPT !.val = Eager([n \in 1..Len(imgs[1].val) |-> 
 (* numerator of output channel o of target tgt over the denominator npix(out) *)
 LayerOutChan(c, x, tgt, outc, W, b, bank, mode, ti, o) ==
   LET srcs == SubSeqWhereL([si \in 1..Len(x.types) |-> si], LAMBDA si : HasBank(bank, FType(x.types[si], tgt)))
-      conv == SumImages([j \in 1..Len(srcs) |-> Contribution(c, x, srcs[j], tgt, W[<<srcs[j], ti>>], bank, o)])
+      conv == SumImages(Eager([j \in 1..Len(srcs) |-> Contribution(c, x, srcs[j], tgt, W[<<srcs[j], ti>>], bank, o)]))
       npix == NPix(conv)
       nc   == NComp(conv)
       bk   == BiasKind(mode, tgt)
